@@ -209,7 +209,7 @@ struct PoolTransparency {
         for (int i = ns - 1; i >= 0; i--) { Json f = Json::obj(); f.set("file", gs[(size_t)i].file); f.set("text", gs[(size_t)i].text); f.set("dtd", false); files.push(f); }
         int ni = tier == "quick" ? r.range(2, 5) : r.range(2, 9);
         for (int i = 0; i < ni; i++) { const GenSchema& g = gs.back(); std::string x = sg.instance(g); std::string hint = g.ns.empty() ? " xsi:noNamespaceSchemaLocation=\"" + g.file + "\"" : " xsi:schemaLocation=\"" + g.ns + " " + g.file + "\"";
-            if (x.find("SchemaLocation=") == std::string::npos) { size_t at = x.find(" xmlns:xsi="); if (at != std::string::npos) x.insert(at, hint); } insts.push(x); }
+            if (x.find("chemaLocation=") == std::string::npos) { size_t at = x.find(" xmlns:xsi="); if (at != std::string::npos) x.insert(at, hint); } insts.push(x); }
         // either schemas or a DTD: a pool must not hold a grammar the instance would not load itself (a no-namespace schema in the pool
         // captures the elements of a DTD document), or "same as inline" is not what the statement promises
         if (r.chance(1, 3)) { files = Json::arr(); insts = Json::arr(); Rng dr = r.sub("dtds"); GenDtd d = genDtd(dr, 0); Json f = Json::obj(); f.set("file", d.file); f.set("text", d.text); f.set("dtd", true); files.push(f); for (auto& x : d.instances) insts.push(x); }
@@ -255,6 +255,61 @@ struct PoolTransparency {
                     A.pool->unlockPool(); g_run.fault("pool_locked_then_parsed_against");
                 }
             }
+        }
+        delete fm;
+    }
+};
+
+// ---------------------------------------------------------------------------------------------- C15, schema-validated histories
+// One long-lived SAX2 parser validates generated instances (xsi:nil, xsi:type, substitutions, identity constraints, defaults) against
+// generated schemas named by the instances themselves; some parses are cut short - a handler exception at the k-th callback, a
+// truncated document, an abandoned progressive parse (with and without parseReset). After every operation the record must equal
+// that of a fresh parser performing only that operation: schema-validator state must not survive an aborted parse.
+struct ThrowingCollect : public Collect {
+    long throwAt = -1, callbacks = 0;
+    void tick() { if (++callbacks == throwAt) { out += "(handler throws)\n"; throw SAXException("injected by the simulation", XMLPlatformUtils::fgMemoryManager); } }
+    void startElement(const XMLCh* const uri, const XMLCh* const localname, const XMLCh* const qname, const Attributes& attrs) override { Collect::startElement(uri, localname, qname, attrs); tick(); }
+    void endElement(const XMLCh* const uri, const XMLCh* const localname, const XMLCh* const qname) override { Collect::endElement(uri, localname, qname); tick(); }
+    void characters(const XMLCh* const chars, const XMLSize_t length) override { Collect::characters(chars, length); tick(); }
+};
+struct SchemaHistory {
+    static Json generate(Rng r, const std::string& tier) {
+        Json plan = Json::obj(); plan.set("mode", "C15schema"); SchemaGen sg(r.sub("schemas")); int ns = r.range(1, 2); std::vector<GenSchema> gs; Json files = Json::arr(), insts = Json::arr(), ops = Json::arr();
+        for (int i = 0; i < ns; i++) gs.push_back(sg.make(i, i > 0 ? &gs[(size_t)i - 1] : nullptr));
+        for (int i = ns - 1; i >= 0; i--) { Json f = Json::obj(); f.set("file", gs[(size_t)i].file); f.set("text", gs[(size_t)i].text); files.push(f); }
+        int ni = r.range(2, 5); for (int i = 0; i < ni; i++) { const GenSchema& g = gs.back(); std::string x = sg.instance(g); std::string hint = g.ns.empty() ? " xsi:noNamespaceSchemaLocation=\"" + g.file + "\"" : " xsi:schemaLocation=\"" + g.ns + " " + g.file + "\""; if (x.find("chemaLocation=") == std::string::npos) { size_t at = x.find(" xmlns:xsi="); if (at != std::string::npos) x.insert(at, hint); } insts.push(x); }
+        int no = tier == "quick" ? r.range(3, 8) : r.range(3, 20);
+        for (int i = 0; i < no; i++) { Json op = Json::obj(); op.set("inst", (int)r.below((uint64_t)ni)); int kind = r.chance(1, 2) ? 0 : 1 + (int)r.below(3); op.set("kind", kind); op.set("k", (long long)r.below(400)); ops.push(op); }
+        plan.set("files", files); plan.set("instances", insts); plan.set("ops", ops); plan.set("full", r.chance(1, 3));
+        return plan;
+    }
+    static std::vector<Json> shrinkCandidates(const Json& plan) { std::vector<Json> c; size_t n = plan.at("ops").a.size(); for (size_t i = 0; i < n && n > 1; i++) { Json p = plan; jsonRemoveAt(p.ref("ops"), i); c.push_back(p); } for (size_t i = 0; i < n; i++) if (plan.at("ops").a[i].geti("kind")) { Json p = plan; p.ref("ops").a[i].set("kind", 0); c.push_back(p); } return c; }
+    static SAX2XMLReaderImpl* make(ThrowingCollect& c, bool full) {
+        SAX2XMLReaderImpl* p = new SAX2XMLReaderImpl(XMLPlatformUtils::fgMemoryManager);
+        p->setFeature(XMLUni::fgSAX2CoreNameSpaces, true); p->setFeature(XMLUni::fgSAX2CoreValidation, true); p->setFeature(XMLUni::fgXercesDynamic, true); p->setFeature(XMLUni::fgXercesSchema, true); p->setFeature(XMLUni::fgXercesSchemaFullChecking, full); p->setFeature(XMLUni::fgXercesIdentityConstraintChecking, true);
+        p->setExitOnFirstFatalError(true); p->setContentHandler(&c); p->setErrorHandler(&c); p->setPSVIHandler(&c); return p;
+    }
+    static std::string run(SAX2XMLReaderImpl* p, ThrowingCollect& c, const std::string& text, int kind, long k) {
+        c.out.clear(); c.callbacks = 0; c.throwAt = kind == 1 ? 1 + k % 14 : -1; std::string doc = text; if (kind == 2 && !doc.empty()) doc.resize(40 + (size_t)k * 7 % doc.size() < doc.size() ? 40 + (size_t)k * 7 % doc.size() : doc.size() / 2);
+        try { MemBufInputSource src((const XMLByte*)doc.data(), doc.size(), "/sim/instance.xml");
+            if (kind == 3) { XMLPScanToken tok; if (p->parseFirst(src, tok)) { long steps = k % 12; bool more = true; for (long s = 0; s < steps && more; s++) more = p->parseNext(tok); if (more) { c.out += "(abandoned)\n"; if (k & 1) p->parseReset(tok); } } }
+            else p->parse(src); }
+        catch (const SAXParseException&) { c.out += "exception SAXParseException\n"; } catch (const SAXException&) { c.out += "exception SAXException\n"; } catch (const XMLException& e) { c.out += "exception XMLException " + pu8(e.getMessage()) + "\n"; } catch (const OutOfMemoryException&) { c.out += "exception OutOfMemory\n"; }
+        return PoolBox::canonical(c.out);
+    }
+    static void execute(const Json& plan, Outcome& o) {
+        g_run.reset(10000000); bool full = plan.getb("full"); std::vector<std::string> insts; for (auto& s : plan.at("instances").a) insts.push_back(s.s);
+        SimFileMgr* fm = new SimFileMgr(); for (auto& f : plan.at("files").a) { SimFile sf; sf.data = f.gets("text"); fm->files["/sim/" + f.gets("file")] = sf; }
+        {
+            WorldInstall wi(fm, nullptr); ThrowingCollect cl; SAX2XMLReaderImpl* L = make(cl, full); int opIndex = 0; bool abortedBefore = false;
+            for (auto& op : plan.at("ops").a) {
+                opIndex++; const std::string& text = insts[(size_t)op.geti("inst") % insts.size()]; int kind = (int)op.geti("kind"); long k = (long)op.geti("k"); g_run.tick();
+                std::string recL = run(L, cl, text, kind, k); std::string recF; { ThrowingCollect cf; SAX2XMLReaderImpl* F = make(cf, full); recF = run(F, cf, text, kind, k); delete F; }
+                if (abortedBefore) o.nontrivial = true;
+                if (recL != recF) { std::string tok; std::string d = firstDiff(recF, recL, tok); o.violated = true; o.cls = "history-dependence:schema:" + tok; o.detail = "operation " + std::to_string(opIndex) + " of " + std::to_string(plan.at("ops").a.size()) + " (schema-validating SAX2 parser, kind " + std::to_string(kind) + ") differs from a fresh parser (shown as original=fresh, restored=reused): " + d; break; }
+                if (kind != 0 || recL.find("FATAL") != std::string::npos) { abortedBefore = true; g_run.fault(kind == 1 ? "handler_exception" : kind == 2 ? "truncated_document" : kind == 3 ? "progressive_abandoned" : "fatal_error"); }
+            }
+            delete L;
         }
         delete fm;
     }
